@@ -118,7 +118,8 @@ class PySnmpCodeGen(IntermediateCodeGen):
             for key, value in tuple(dct.items()):
                 if isinstance(value, dict):
                     translateOids(value)
-                elif key == 'oid':
+                # (an enumeration or BITS label may be spelled "oid", too)
+                elif key == 'oid' and hasattr(value, 'split'):
                     dct[key] = tuple(int(x) for x in value.split('.'))
 
         translateOids(context)
